@@ -14,6 +14,8 @@ impl GenerationPass for EliminateDeadCodeDirectionsPass {
         let nodes = cfg.nodes();
         let mut changed = true;
         while changed {
+            #[cfg(feature = "verif-hooks")]
+            crate::verif_hooks::sweep(crate::verif_hooks::Pass::DeadCode);
             changed = false;
             let old = nodes.clone();
             for node in nodes {
